@@ -358,6 +358,7 @@ type wmsg struct {
 	SigCounts  map[string]int `json:"sig_counts"`
 	Steps      int64          `json:"steps"`
 	SimNS      int64          `json:"sim_ns"`
+	SimS       float64        `json:"sim_s"`
 	Stuck      int            `json:"stuck"`
 	StepCap    int            `json:"step_cap"`
 	Leaky      int            `json:"leaky_runs"`
@@ -560,7 +561,7 @@ func main() {
 					agg.PureRuns += m.PureRuns
 					agg.Nontrivial += m.Nontrivial
 					agg.Steps += m.Steps
-					simSeconds += float64(m.SimNS) / 1e9
+					simSeconds += float64(m.SimNS)/1e9 + m.SimS
 					agg.Stuck += m.Stuck
 					agg.StepCap += m.StepCap
 					agg.Leaky += m.Leaky
